@@ -447,6 +447,31 @@ pub fn oracle_c02_live(si: &ScriptInfo, tr: &Trace, clause: &str) -> Option<Viol
     None
 }
 
+/// Attribution for known finding D28 by its mechanism, not by a number: for at least 60 s after the probes were submitted this side had
+/// data queued and put no data frame on the wire, while its peer kept submitting (at least one packet per second) and this side kept
+/// acknowledging, the acknowledgement frames alone using up at least half of what its allowed send rate admits (acknowledgements are
+/// emitted before data and charged to the same credit, so every flush that has credit spends it on one).
+pub const D28_SIG: &str = "C11.live:no-progress:pinned-at-the-floor-rate-while-acknowledging-a-streaming-peer";
+pub fn starved_by_own_acks(tr: &Trace, side: usize, probe_round: usize) -> Option<(u64, u64)> {
+    let t_probe = tr.obs.iter().find(|o| o.side == side && o.round >= probe_round).map(|o| o.t_ms)?;
+    let t_end = tr.obs.iter().filter(|o| o.side == side).last().map(|o| o.t_ms)?;
+    // the instants at which this side emitted a data frame, as fence posts
+    let mut posts: Vec<u64> = vec![t_probe];
+    posts.extend(tr.ems.iter().filter(|e| e.side == side && e.t_ms >= t_probe && matches!(e.frame, Some(Frame::DataFrame(_)))).map(|e| e.t_ms));
+    posts.push(t_end);
+    for w in posts.windows(2) {
+        let (a, b) = (w[0], w[1]);
+        if b < a + 60_000 { continue; }
+        let dur_s = (b - a) as f64 / 1000.0;
+        let queued = tr.obs.iter().filter(|o| o.side == side && o.t_ms > a && o.t_ms < b).all(|o| o.sbs > 0);
+        let peer_subs = tr.subs.iter().filter(|x| x.side == 1 - side && x.t_ms >= a && x.t_ms <= b).count() as f64;
+        let ack_bytes: usize = tr.ems.iter().filter(|e| e.side == side && e.t_ms > a && e.t_ms < b && matches!(e.frame, Some(Frame::AckFrame(_)))).map(|e| e.len).sum();
+        let allowed: f64 = tr.obs.iter().filter(|o| o.side == side && o.t_ms > a && o.t_ms < b).map(|o| o.probe.send_rate as f64).fold(0.0, f64::max) * dur_s;
+        if queued && peer_subs >= dur_s && ack_bytes as f64 >= 0.5 * allowed { return Some((a, b)); }
+    }
+    None
+}
+
 /// C11: after the fault phase, every packet submitted from `probe_round` on in Unreliable,
 /// Persistent or Reliable mode is delivered exactly once by the horizon, nothing is pending, and the
 /// earlier Reliable packets have been delivered too (no permanent stall).
@@ -464,6 +489,8 @@ pub fn oracle_c11(si: &ScriptInfo, tr: &Trace, probe_round: usize) -> Vec<Violat
         // about 6.9 kB; half of that is demanded. With more queued (data from before the fault is still waiting and TFRC may
         // legitimately crawl), the sender must at least have moved half of what the minimum rate allows.
         let small_backlog = (at_probe.sbs as f64) <= 0.5 * 23.0 * elapsed_s;
+        let starved = starved_by_own_acks(tr, side, probe_round);
+        let mut starved_reported = false;
         for (i, o) in si.ops.iter().enumerate().filter(|(_, o)| o.side == side) {
             if let OpKind::Send { mode, ch, size } = o.kind {
                 let is_probe = o.round >= probe_round && mode != SendMode::TimeSensitive;
@@ -471,6 +498,11 @@ pub fn oracle_c11(si: &ScriptInfo, tr: &Trace, probe_round: usize) -> Vec<Violat
                 if !must { continue; }
                 let n = tr.dels.iter().filter(|d| d.side == 1 - side && d.sub == Some(i)).count();
                 if n != 1 {
+                    // packets of a sender starved by its own acknowledgements (D28) are consequences of that finding: reported once, under its signature
+                    if let Some((a, b)) = starved {
+                        if !starved_reported { starved_reported = true; out.push(viol("C11.live", D28_SIG.into(), format!("side {} put no data frame on the wire between t={} ms and t={} ms although it had data queued: its peer kept streaming and every flush with credit was spent on an acknowledgement frame; {:?} packet ch{} {} B submitted in round {} was delivered {} times by the horizon (t={} ms); sender rate {} B/s; {}", side, a, b, mode, ch, size, o.round, n, last.t_ms, end.probe.send_rate, what))); }
+                        continue;
+                    }
                     let sig = format!("C11.live:{}", if is_probe { "probe-undelivered" } else { "reliable-undelivered" });
                     if !out.iter().any(|v: &Violation| v.sig == sig) {
                         out.push(viol("C11.live", sig, format!("{:?} packet ch{} {} B submitted in round {} was delivered {} times by the horizon (t={} ms, {} rounds) although only {} B were queued when the probes were submitted; sender rate {} B/s, rtt {:?}, pending {}; {}", mode, ch, size, o.round, n, last.t_ms, tr.rounds, at_probe.sbs, end.probe.send_rate, end.rtt, end.pending, what)));
@@ -481,8 +513,8 @@ pub fn oracle_c11(si: &ScriptInfo, tr: &Trace, probe_round: usize) -> Vec<Violat
         if !small_backlog && tr.rounds > probe_round + 1000 && (done as f64) < 0.5 * 23.0 * elapsed_s {
             // attribution (known finding D28): the sender sits at the floor rate, has moved less than half of what even that rate allows, and owes acknowledgements
             // to a peer that keeps streaming (every flush with credit is spent on an acknowledgement frame)
-            let peer_streams = tr.subs.iter().filter(|x| x.side == 1 - side && x.round >= probe_round).count() >= 200;
-            let sig = if end.probe.send_rate <= 23.0 && peer_streams { "C11.live:no-progress:pinned-at-the-floor-rate-while-acknowledging-a-streaming-peer" } else { "C11.live:no-progress" };
+            let sig = if starved.is_some() { D28_SIG } else { "C11.live:no-progress" };
+            if starved.is_some() && starved_reported { continue; }
             out.push(viol("C11.live", sig.into(), format!("side {} had {} B queued when the probes were submitted (t={} ms) and still has {} B at the horizon (t={} ms): {} B in {:.0} s is less than half of what the minimum rate s/64 = 23 B/s moves; rate {} B/s; {}", side, at_probe.sbs, at_probe.t_ms, end.sbs, end.t_ms, done, elapsed_s, end.probe.send_rate, what)));
         }
     }
